@@ -80,11 +80,8 @@ impl MersenneTwister {
 
     /// Yeilds a random f32 in the range [0..1).
     pub fn f32_0_1(&mut self) -> f32 {
-        let mut u = self.next();
-        if u == u32::MAX {
-            u -= 1
-        };
-        u as f32 / 0xffffffffu32 as f32
+        // 24 random bits over 2^24: exact in f32 and always below 1.0
+        (self.next() >> 8) as f32 / 16777216.0
     }
 
     /// Yeilds a random i32 in the range [min..max).
